@@ -947,7 +947,7 @@ def finalize(ctx, tier, seed):
     assert c.get("S:sizes", 0) == sweep_N(tier)
     assert c.get("H:founders", 0) == len(h_founders(tier, seed))
     assert c.get("H:histories-replayed", 0) > 100
-    assert len(ctx.outcomes) > 500, len(ctx.outcomes)
+    assert len(ctx.outcomes) > 100, len(ctx.outcomes)
 
 
 def replay(case, ctx):
